@@ -16,7 +16,9 @@ Act(e) == CASE e.op = "New" -> New(e.o, [m \in Member |-> e.init[m]])
             [] e.op = "WGet" -> WGet(e.o, e.m, e.v)
             [] e.op = "LSet" -> LSet(e.o, e.m, e.v)
             [] e.op = "LGet" -> LGet(e.o, e.m, e.v)
+            [] OTHER -> FALSE /\ UNCHANGED mvars      \* "WErr": the accessor raised an exception / does not exist
 Why(e) == IF e.o \notin Obj THEN <<"unknown object", e.op>>
+          ELSE IF e.op = "WErr" THEN <<"accessor is missing or raised an exception", e.m>>
           ELSE IF e.op = "New" THEN <<"object constructed twice", e.o>>
           ELSE IF e.o \notin live THEN <<"object is not alive", e.op, e.o>>
           ELSE IF e.op = "WSet" /\ e.m \in ReadOnly THEN <<"setter exists for a read-only member", e.m>>
